@@ -1,7 +1,6 @@
 package consul
 
 import (
-	"fmt"
 	"log"
 	"sort"
 	"strings"
@@ -65,18 +64,23 @@ func (w *ServiceMonitor) Watch(updates chan string) {
 // makeConfig determines which service instances have passing health checks
 // and then finds the ones which have tags with the right prefix to build the config from.
 func (w *ServiceMonitor) makeConfig(checks []*api.HealthCheck) string {
-	// map service name to list of service passing for which the health check is ok
-	m := map[string]map[string]bool{}
+	// map service name to the instances for which the health check is ok.
+	// An instance is a node and a service id on it, because according to the
+	// Consul docs the ServiceID is unique per agent but not cluster wide
+	// https://www.consul.io/api/agent/service.html#id
+	// The two are kept apart: joined into one string, node "a.b" with id "c"
+	// and node "a" with id "b.c" would be the same instance.
+	m := map[string]map[string]map[string]bool{}
 	for _, check := range checks {
-		// Make the node part of the id, because according to the Consul docs
-		// the ServiceID is unique per agent but not cluster wide
-		// https://www.consul.io/api/agent/service.html#id
-		name, id := check.ServiceName, fmt.Sprintf("%s.%s", check.Node, check.ServiceID)
+		name, node, id := check.ServiceName, check.Node, check.ServiceID
 
 		if _, ok := m[name]; !ok {
-			m[name] = map[string]bool{}
+			m[name] = map[string]map[string]bool{}
 		}
-		m[name][id] = true
+		if _, ok := m[name][node]; !ok {
+			m[name][node] = map[string]bool{}
+		}
+		m[name][node][id] = true
 	}
 
 	n := w.config.ServiceMonitors
@@ -108,7 +112,7 @@ func (w *ServiceMonitor) makeConfig(checks []*api.HealthCheck) string {
 }
 
 // serviceConfig constructs the config for all good instances of a single service.
-func (w *ServiceMonitor) serviceConfig(name string, passing map[string]bool) (config []string) {
+func (w *ServiceMonitor) serviceConfig(name string, passing map[string]map[string]bool) (config []string) {
 	if name == "" || len(passing) == 0 {
 		return nil
 	}
@@ -126,7 +130,7 @@ func (w *ServiceMonitor) serviceConfig(name string, passing map[string]bool) (co
 
 	for _, svc := range svcs {
 		// check if this instance passed the health check
-		if _, ok := passing[svc.Node+"."+svc.ServiceID]; !ok {
+		if !passing[svc.Node][svc.ServiceID] {
 			continue
 		}
 
